@@ -112,34 +112,26 @@ Proof.
   intros. unfold om_range_spec. apply filter_ext_in. intros kv I. unfold in_bounds. rewrite (H kv I). reflexivity.
 Qed.
 
-Theorem bpt_range_outside_known_ok : bpt_range_outside_known_stmt.
+Theorem bpt_range_statement_ok : bpt_range_statement.
 Proof.
-  intros V m lo hi S Kn. unfold bpt_range.
+  intros V m lo hi S. unfold bpt_range.
   rewrite (range_filter bytes V lex_cmp lex_preorder_ok m (bpt_lo lo) hi S).
   apply range_spec_ext. intros kv I.
   destruct lo as [|b|b]; simpl; try reflexivity; destruct b as [|x b]; simpl; try reflexivity.
-  - (* Included(empty): nothing is below the empty key *)
-    pose proof (lex_nil_min (fst kv)). destruct (lex_cmp (fst kv) []); congruence.
-  - (* Excluded(empty), and the map does not hold the empty key *)
-    assert (N : fst kv <> []).
-    { intro E. simpl in Kn. destruct m as [|[k0 v0] r]; [destruct I|].
-      apply sorted_cons in S. destruct S as [B _]. destruct I as [I|I].
-      - subst. simpl in E. subst. discriminate.
-      - unfold below in B. rewrite Forall_forall in B. specialize (B _ I). rewrite E in B.
-        pose proof (lex_nil_min k0). congruence. }
-    rewrite (lex_nil_gt _ N). reflexivity.
+  (* Included(empty): nothing is below the empty key *)
+  pose proof (lex_nil_min (fst kv)). destruct (lex_cmp (fst kv) []); congruence.
 Qed.
 
-Theorem bpt_range_refuted_ok : bpt_range_refuted_stmt.
+Theorem bpt_range_old_refuted_ok : bpt_range_old_refuted_stmt.
 Proof.
-  exists [([], 0%N)], (Excl []), Unb. split.
+  exists [([], 0%N)], Unb. split.
   - apply sorted_cons. split; constructor.
   - vm_compute. discriminate.
 Qed.
 
 Theorem bpt_range_nonempty_start_ok : bpt_range_nonempty_start_stmt.
 Proof.
-  intros V cmp m lo hi PO S [N1 N2]. unfold bpt_range.
+  intros V cmp m lo hi PO S N1. unfold bpt_range.
   replace (bpt_lo lo) with lo.
   - apply range_filter; assumption.
   - destruct lo as [|b|b]; try reflexivity; destruct b; simpl; congruence.
